@@ -272,6 +272,12 @@ def oracle(case, resps):
     for i, (q, resp) in enumerate(zip(case["reqs"], resps)):
         if resp.get("panic"):
             return (i, "handler panicked")
+        if resp.get("status") == -2:
+            break
+        if resp.get("status") == -1:
+            return (i, "%s %s never returned (6 s): the API is wedged" % (q["method"], q["path"]))
+        if resp.get("status2") == -1:
+            return (i, "after %s %s (status %s) GET /proxies never returned (6 s): the API is wedged" % (q["method"], q["path"], resp.get("status")))
         after = A.canon_payload(resp["proxies"])
         if after[0] != "proxies" and resp["proxies"].strip() != "{}":
             return (i, "GET /proxies after the request is not a proxy map: " + resp["proxies"][:80])
@@ -457,9 +463,16 @@ def run_api_property(ctx, pid, gen_cases, oracle, classify, rule, assumptions, k
     return rc
 
 
+def side(ctx, proof):
+    """proxies are unique by name also when the creates arrive together: the conflicting-creates family of C06 (conc harness), judged here on
+    the status codes (exactly one 201, the rest 409) and on what listens afterwards"""
+    from . import p_C06
+    return p_C06.conflicting_creates(ctx)
+
+
 def run(ctx):
     return run_api_property(
-        ctx, PID, gen_cases, oracle,
+        ctx, PID, gen_cases, oracle, side_findings=side,
         classify=lambda w: "browser" if "browser" in w else ("defaults" if "default" in w else ("duplicate" if "duplicate" in w or "share a name" in w
                            else ("unknown-name" if "unknown" in w else ("read-your-writes" if "reflect" in w or "listed" in w else "other")))),
         rule="random request sequences (5-40 requests) over 2 proxy names (a quarter of the sequences with names containing + . - ~ : @), 2 ports, 2 upstreams, every route and method, valid bodies, "
